@@ -90,10 +90,6 @@ def refname(n):
 
 # ------------------------------------------------------------------------------------------------ IR utilities
 
-def is_tuple_ir(e):
-    return isinstance(e, tuple) and e and isinstance(e[0], str)
-
-
 def subst(e, m):
     """replace ('ivar',name) / ('ph',key) / ('lvar',name) nodes according to m (keys are the nodes themselves)"""
     if isinstance(e, tuple):
@@ -121,11 +117,6 @@ def mentions(e, node):
 
 def phs(e):
     return [x for x in nodes(e) if isinstance(x, tuple) and len(x) == 2 and x[0] == "ph"]
-
-
-def simp(e):
-    """light clean-up: 0+a, a*1 are kept (ring absorbs them); only conditions on literals are folded"""
-    return e
 
 
 def lit_disjoint(t1, t2):
@@ -175,6 +166,7 @@ class Exec:
         self.version = 0         # state version (st0, st1, ...)
         self.lets = []           # [(new state name, kind, payload)]
         self.loops = []          # active loop ids (innermost last)
+        self.returned = False
         self.result = None
 
     def err(self, msg):
@@ -533,7 +525,9 @@ class Exec:
         return arrs, locs
 
     def exec_block(self, stmts, top=False):
-        for s in stmts:
+        for i, s in enumerate(stmts):
+            if self.returned:
+                self.err("statements after a return")
             self.exec_stmt(s, top)
             if top:
                 self.flush()
@@ -557,6 +551,9 @@ class Exec:
         if k == "IfStmt":
             return self.exec_if(s, top)
         if k == "ReturnStmt":
+            if not top:
+                self.err("return below the top level of the function")
+            self.returned = True
             ks = kids(s)
             if ks:
                 r = strip_all(ks[0])
